@@ -15,7 +15,7 @@ def showS (s : S) : String :=
 
 def parseFrm (reply : Bool) (x : String) : Option Frm :=
   match x.splitOn ":" with
-  | [n, t] => t.toNat?.map fun t => ⟨n, t, reply⟩
+  | [n, t] => t.toNat?.map fun t => { name := n, tag := t, reply := reply }
   | _ => none
 
 def act (s : S) (a : Act) (extra : S → String := fun _ => "") : Option (S × String) :=
